@@ -377,4 +377,124 @@ theorem spreadExportLoop_sim {lib : Lib} (item : Nat) (es : Exports) :
         · rw [hl]; simp
         · exact hsim'
 
+/-- export statements: inferred name / `as` / spread -/
+theorem export_sim {lib : Lib} (hlib : LibWF lib) {ms : State} {ss : Spec.St} (hs : Sim lib ms ss) (self : Str)
+    (e : Expr) (opt : ExportOpt) :
+    StRel lib (exportStatement self ms e opt) (Spec.evalStmt lib self ss (.exp e opt)) := by
+  unfold exportStatement
+  have h := expr_sim lib hlib self e ms ss hs
+  cases opt with
+  | none =>
+    rw [Spec.evalStmt]
+    generalize Model.expr self ms e = a at h
+    generalize Spec.evalExpr lib self ss e = b at h
+    cases h with
+    | err d => exact .err d
+    | ok s ex bd v sc =>
+      subst v
+      simp only
+      rw [inferExport_eq s _ bd]
+      cases Spec.inferredExportName (valOf _ _) with
+      | none => exact .err _
+      | some name => exact sim_export s _ bd name
+  | as name =>
+    rw [Spec.evalStmt]
+    generalize Model.expr self ms e = a at h
+    generalize Spec.evalExpr lib self ss e = b at h
+    cases h with
+    | err d => exact .err d
+    | ok s ex bd v sc =>
+      subst v
+      exact sim_export s _ bd name
+  | spread =>
+    rw [Spec.evalStmt]
+    generalize Model.expr self ms e = a at h
+    generalize Spec.evalExpr lib self ss e = b at h
+    cases h with
+    | err d => exact .err d
+    | ok s ex bd v sc =>
+      rename_i ms1 item ss1 val
+      subst v
+      simp only
+      have hkind : (valOf ms1.graph item).kind = ms1.graph.kindOf item := rfl
+      rw [hkind]
+      cases hes : (ms1.graph.kindOf item).instExports with
+      | none => exact .err _
+      | some es =>
+        simp only
+        obtain ⟨ms', hl, hsim⟩ := spreadExportLoop_sim (lib := lib) item es es.toList [] ms1 ss1 false s bd hes
+          (by simp) (by simp)
+        have hnames : es.names = es.toList.map (·.1) := rfl
+        rw [hnames, hl]
+        simp only [Bool.false_or]
+        cases hany : (Spec.spreadExports (valOf ms1.graph item) es.toList ss1.exports).2 with
+        | false => exact .err _
+        | true => exact .ok hsim
+
+/-- the statement loop -/
+theorem stmts_sim {lib : Lib} (hlib : LibWF lib) (self : Str) : ∀ (stmts : List Stmt) (ms : State) (ss : Spec.St),
+    Sim lib ms ss → StRel lib (resolveStmts self ms stmts) (Spec.evalStmts lib self ss stmts)
+  | [], ms, ss, hs => by
+    rw [resolveStmts, Spec.evalStmts]
+    exact .ok hs
+  | .imp id as ty :: rest, ms, ss, hs => by
+    rw [resolveStmts, Spec.evalStmts]
+    have h := import_sim (self := self) hs id as ty
+    generalize importStatement ms id as ty = a at h
+    generalize Spec.evalStmt lib self ss (.imp id as ty) = b at h
+    cases h with
+    | err d => exact .err d
+    | ok s => exact stmts_sim hlib self rest _ _ s
+  | .bind id e :: rest, ms, ss, hs => by
+    rw [resolveStmts, Spec.evalStmts]
+    have h := let_sim hlib hs self id e
+    generalize letStatement self ms id e = a at h
+    generalize Spec.evalStmt lib self ss (.bind id e) = b at h
+    cases h with
+    | err d => exact .err d
+    | ok s => exact stmts_sim hlib self rest _ _ s
+  | .exp e opt :: rest, ms, ss, hs => by
+    rw [resolveStmts, Spec.evalStmts]
+    have h := export_sim hlib hs self e opt
+    generalize exportStatement self ms e opt = a at h
+    generalize Spec.evalStmt lib self ss (.exp e opt) = b at h
+    cases h with
+    | err d => exact .err d
+    | ok s => exact stmts_sim hlib self rest _ _ s
+
+/-- the empty states are related -/
+theorem sim_init (lib : Lib) : Sim lib { pending := lib } {} := by
+  refine ⟨⟨by simp, ?_, by simp, rfl⟩, by simp, rfl, rfl, rfl, rfl, rfl, ?_⟩
+  · intro i nd h; simp at h
+  · intro name ver
+    simp [lib_find_eq]
+
+/-- reading the wiring off the final graph is what `finish` does with the final specification state -/
+theorem wiring_sim {lib : Lib} {ms : State} {ss : Spec.St} (hs : Sim lib ms ss) :
+    wiring ms.graph = Spec.finish ss := by
+  unfold wiring Spec.finish
+  rw [hs.implicit, hs.imports, hs.insts, hs.exports]
+  have hfind : (implicitOf ms.graph).find? (fun x => alHas x.1 ms.graph.imports) =
+      (implicitOf ms.graph).find? (fun x => alHas x.1 (explicitOf ms.graph)) := by
+    congr 1
+    funext x
+    exact alHas_keys x.1 _ _ hs.wf.imports
+  have hfind' : (implicitOf ms.graph).find? (fun (x : Str × Kind) => match x with | (n, _) => alHas n ms.graph.imports) =
+      (implicitOf ms.graph).find? (fun (x : Str × Kind) => match x with | (n, _) => alHas n (explicitOf ms.graph)) := hfind
+  rw [hfind']
+  cases (implicitOf ms.graph).find? (fun (x : Str × Kind) => match x with | (n, _) => alHas n (explicitOf ms.graph)) with
+  | some x => rfl
+  | none => rfl
+
+/-- **refinement**: resolving and encoding in the model is the reference evaluation -/
+theorem resolveModel_eq_eval (p : Program) (lib : Lib) (hlib : LibWF lib) :
+    resolveModel p lib = Spec.eval p lib := by
+  unfold resolveModel resolve Spec.eval
+  have h := stmts_sim hlib p.self p.stmts { pending := lib } {} (sim_init lib)
+  generalize resolveStmts p.self { pending := lib } p.stmts = a at h
+  generalize Spec.evalStmts lib p.self {} p.stmts = b at h
+  cases h with
+  | err d => rfl
+  | ok s => exact wiring_sim s
+
 end Wac.Lemmas.C04
